@@ -14,9 +14,9 @@ func init() { register("C04", checkC04) }
 func checkC04(p *Prog, r *Report) {
 	c04Errors(p, r)
 	c04Readers(p, r)
-	c04Carried(p, r)
+	c04Carried(p, r, "C04.R2c", true)
 	c04Expected(p, r)
-	c04Pipeline(p, r)
+	c04Pipeline(p, r, "C04.R3")
 	c04Transform(p, r, "C04.R4")
 	c04LoadYear(p, r)
 	c04DayCounter(p, r)
@@ -208,8 +208,8 @@ func sharesAtoms(q, d Poly) bool {
 
 // ---------------------------------------------------------------- R3 pipeline
 
-func c04Pipeline(p *Prog, r *Report) {
-	r.Rule("C04.R3", "normalisation pipeline: every success path of a reader first replaces missing values and then applies the unit transformation, both over the same number of years", 3)
+func c04Pipeline(p *Prog, r *Report, rule string) {
+	r.Rule(rule, "normalisation pipeline: every success path of a reader first replaces missing values and then applies the unit transformation, both over the same number of years", 3)
 	for _, key := range readers {
 		x := walked(p, key)
 		fn := strings.TrimPrefix(key, "hermes.")
@@ -1036,8 +1036,8 @@ func sentinelFallback(p *Prog, r *Report, rule string) {
 // knows how far the file has to reach: that is the "covers" obligation.
 var carriedDate = map[string]bool{}
 
-func c04Carried(p *Prog, r *Report) {
-	r.Rule("C04.R2c", "gaps at a year end and coverage: in the date-keyed readers the test that rejects a gap also compares the record with a value carried from the previous record that is assigned from the record's date in every iteration and never reset (the day counter restarts on 1 January and cannot see days missing before it); every reader checks after its read loop that the data reach as far as they are needed", 2)
+func c04Carried(p *Prog, r *Report, rule string, withCoverage bool) {
+	r.Rule(rule, "gaps at a year end and coverage: in the date-keyed readers the test that rejects a gap also compares the record with a value carried from the previous record that is assigned from the record's date in every iteration and never reset (the day counter restarts on 1 January and cannot see days missing before it); every reader checks after its read loop that the data reach as far as they are needed", 2)
 	for _, key := range []string{"hermes.ReadWeatherCSV", "hermes.ReadWeatherCZ", "hermes.WetterK"} {
 		fi := p.Funcs[key]
 		if fi == nil {
@@ -1153,6 +1153,9 @@ func c04Carried(p *Prog, r *Report) {
 			if ifs, ok := s.(*ast.IfStmt); ok && returnsErr(ifs.Body) {
 				covers = true
 			}
+		}
+		if !withCoverage {
+			continue
 		}
 		r.Ob(short(key)+":covers", p.Pos(loop.End()), covers, fmt.Sprintf("after the read loop the reader rejects data that end before they are needed (end of the year file / end of the simulation): %v — otherwise the year length becomes the last day read, the day loop turns to the next year early and every later day is driven by another date's record", covers))
 	}
